@@ -1,4 +1,5 @@
 """C11 - evaluation is total on finite inputs (structural part)."""
+import re
 from .. import ast as A
 from .. import nanflow as N
 from .. import shapecore as SC
@@ -136,11 +137,60 @@ def r2b_unreachable_ranges(rule, root=None):
 from .. import factrules as FR
 
 
+
+def r2c_nan_skipping_folds(rule, root=None):
+    """`f32::min` / `f32::max` skip NaN operands.  A bound of an Interval::new that is accumulated with
+    them from a *constant* seed (+/-INFINITY, MAX, MIN) stays at the seed when every datum is NaN, and
+    Interval::new(+inf, -inf) fails its assertion (a panic where the NaN interval is owed).  Bounds must be
+    seeded from the data itself."""
+    IV = "fidget-core/src/types/interval.rs"
+    SEEDS = ("f32::INFINITY", "f32::NEG_INFINITY", "f32::MAX", "f32::MIN", "-f32::INFINITY", "-f32::MAX", "std::f32::INFINITY", "std::f32::NEG_INFINITY")
+    n = 0
+    for fn in A.fns(IV, root):
+        if fn.get("body") is None:
+            continue
+        news = [c for c in A.find(fn["body"], "Call") if (A.path_segs(c["func"]) or [])[-2:] == ["Interval", "new"] and len(c["args"]) == 2]
+        for c in news:
+            n += 1
+            bad = None
+            for a in c["args"]:
+                nm = A.ident(A.strip(a))
+                defs = [a] if nm is None else [l_["init"] for l_ in A.find(fn["body"], "Let") if A.binding_name(l_["pat"]) == nm and l_.get("init") is not None]
+                for d_ in defs:
+                    dt = A.unparse(d_).replace(" ", "")
+                    for m_ in A.find(d_, "MethodCall"):
+                        if m_["method"] in ("fold", "reduce") and m_["args"] and A.unparse(m_["args"][0]).replace(" ", "") in SEEDS and ("min" in A.unparse(m_["args"][-1]) or "max" in A.unparse(m_["args"][-1])):
+                            bad = "`%s` folds min/max from the constant %s" % (nm or dt[:30], A.unparse(m_["args"][0]))
+                    if nm and dt in SEEDS:
+                        upd = [x for x in A.find(fn["body"], "Assign") if A.ident(A.strip(x["left"])) == nm and (".min(" in A.unparse(x["right"]) or ".max(" in A.unparse(x["right"]))]
+                        # data that cannot be NaN: produced only by NaN-free functions of operands the function
+                        # has already screened with has_nan()
+                        def nan_free(x):
+                            r_ = A.strip(x["right"])
+                            arg = A.strip(r_["args"][0]) if r_.get("k") == "MethodCall" and r_["args"] else None
+                            if arg is None:
+                                return False
+                            src = A.resolve_locals(fn["body"], arg)
+                            screened = "has_nan()" in A.unparse(fn["body"])
+                            only = re.fullmatch(r"[\w.]+\.(atan2|atan|abs|signum)\([\w.,]*\)", src) is not None
+                            return screened and only
+                        if upd and not all(nan_free(x) for x in upd):
+                            bad = "`%s` starts at the constant %s and is updated with min/max" % (nm, dt)
+            if bad:
+                rule.bad("nanfold|%s" % A.fn_label(fn), "%s: %s; when every datum is NaN the bound stays at its seed and Interval::new panics on (+inf, -inf) - seed the accumulation from the data" % (A.fn_label(fn), bad), A.where(fn, c))
+            else:
+                rule.ok("%s: Interval::new bounds are not min/max-accumulated from a constant seed" % A.fn_label(fn), file=IV, line=c["ln"])
+    if n < 20:
+        rule.lost("Interval::new sites in interval.rs (found %d)" % n)
+
+
 def run(ctx):
     r = ctx.rule("R1", "all eight evaluators check their arguments first and return the error; the checks cover every supplied slice", 12)
     ctx.guarded(r, r1_checks_dominate)
     r = ctx.rule("R2", "no Interval::new site can receive one NaN and one non-NaN bound (float-class abstract interpretation)", 30)
     ctx.guarded(r, r2_nanflow)
+    r = ctx.rule("R2c", "no Interval::new bound is a min/max accumulation from a constant seed (min/max skip NaN)", 63)
+    ctx.guarded(r, r2c_nan_skipping_folds)
     r = ctx.rule("R2b", "unreachable!() defaults are justified by the range of their scrutinee", 1)
     ctx.guarded(r, r2b_unreachable_ranges)
     r = ctx.rule("R3", "panic-capable sites in the per-op data path are exactly the justified inventory; callbacks cannot panic", 4)
@@ -148,5 +198,10 @@ def run(ctx):
     r = ctx.rule("R4", "buffers handed to native code / indexed by the loops are sized to the tape first; shape scratch is resized per call", 22)
     ctx.guarded(r, C10.r1_buffers)
     ctx.guarded(r, SC.r_shape_scratch)
+    ctx.guarded(r, C10.r4_pointer_lists)
+    from .. import jitdriver as JD_
+
+    r = ctx.rule("R4b", "native code addresses its input / output tables with the strides of their element types", 10)
+    ctx.guarded(r, JD_.r_strides)
     r = ctx.rule("R3f", "[resolved program] panic-capable MIR sites of the per-op data types are within the justified inventory", 60)
     ctx.guarded(r, FR.data_cone_panics, ctx)
